@@ -59,6 +59,9 @@ def run(tier, seed):
     vecs = [schemaev.fix_nodes(s.get("nodes")) for s in r["scn"]]
     trees = [scopes.flatten(scopes.random_tree(rng, depth=rng.choice([2, 3, 4, 5])))["nodes"] for _ in range(150 if tier == "quick" else 3000)]
     named = [scopes.flatten(t)["nodes"] for _, t in scopes.schema_trees("quick")]
+    # numbers beyond 32 bits in a built graph (its JSON is regenerated, not kept): a fixed size and a decimal precision
+    named.append(scopes.flatten(scopes.rec("a.HP", [("d", scopes.prim("bytes", lt="decimal", prec=2 ** 32 + 10, scale=3)), ("f", scopes.fixed("a.BF", 2 ** 32 + 7)),
+                                                    ("e", scopes.fixed("a.FP", 20, lt="decimal", prec=2 ** 32, scale=0))]))["nodes"])
     allv = vecs + trees + named
     bobs = common.run_harness([schemaev.build_cmd(n, i) for i, n in enumerate(allv)], per_cmd_timeout=30)
     ntr += schemaev.validate_builds(rep, [(n, o, {}) for n, o in zip(allv, bobs)], ["json"], "built graph: regenerated JSON")
